@@ -544,7 +544,14 @@ def run_check(modname, pid, tier, seed, replay=None, config=None):
             merged['labels'].update(res['labels'])
             merged['excluded'].update(res['excluded'])
             for k, v in res.get('notes', {}).items():
-                merged['notes'].setdefault(k, v)
+                cur = merged['notes'].setdefault(k, v)
+                if cur is not v and isinstance(cur, dict) and isinstance(
+                        v, dict):
+                    # per-shard counters (fuzzing campaigns) add up
+                    for kk, vv in v.items():
+                        if isinstance(vv, (int, float)) and isinstance(
+                                cur.get(kk), (int, float)):
+                            cur[kk] += vv
             if len(merged['samples']) < 3:
                 merged['samples'].extend(res['samples'][:1])
             if len(merged['nt_samples']) < 8:
